@@ -367,7 +367,7 @@ def check_api_windows(tier, seed):
     from . import ceval
     viol, cases = [], 0
     fine = [(-1.0, 11604.518), (11604.518, 2321750.5), (2321.7505, -1.0), (300.0, 1234567.0), (1234567.0, 1.0e99), (0.000123456789, 10.0), (10.0, 300.0), (-1.0, -1.0),
-            (123456.789, 123456.79), (9999.9995, 99999.995)]
+            (123456.789, 123456.79), (9999.9995, 99999.995), (0.5, 2.5), (2.0, 2.73), (-1.0, 1.5)]
     coarse = [(10.0, 41000.0), (41000.0, 2.5e9), (2.5e9, -1.0), (-1.0e99, 1.0e99), (1234567.25, 7654321.75), (999999.99, 1000000.01), (-1.0, 1.0e8), (1.0e8, 1.0e10), (0.0, 0.0)]
 
     def build(ws):
@@ -382,6 +382,9 @@ def check_api_windows(tier, seed):
         if sorted(guards) != list(range(len(ws))):
             viol.append({"property": "C06", "what": f"{label}: statements for k{sorted(guards)[:6]}..., {len(ws)} reactions declared", "signature": f"C06:{label}:statements"})
             return
+        # what the guards see as Tgas: the caller's value, through every statement of the evaluator that assigns it again
+        from .native_ode import strip_comments
+        reassign = [m.group(1) for m in re.finditer(r"(?<![\w.>])(?<!realtype )(?<!double )\bTgas\s*=(?!=)\s*([^;]*);", strip_comments(body))]
         for i, (lo, hi) in enumerate(ws):
             vl, vu = (lo if lo > 0 else None), (hi if hi > 0 else None)
             for b in [x for x in (vl, vu) if x is not None] or [100.0]:
@@ -396,7 +399,10 @@ def check_api_windows(tier, seed):
                         lits = {}
                         gq = re.sub(r"(?<![\w.])(\d+\.?\d*(?:[eE][-+]?\d+)?|\.\d+(?:[eE][-+]?\d+)?)(?![\w.])",
                                     lambda m: lits.setdefault(f"lit{len(lits)}", Fraction(float(m.group(1)))) and f"lit{len(lits) - 1}", g)
-                        got = True if not g else bool(ceval.value(ceval.parse_expr(gq), ceval.Env(idents={"Tgas": tq, **lits})))
+                        teff = tq
+                        for rhs in reassign:
+                            teff = Fraction(ceval.value(ceval.parse_expr(rhs), ceval.Env(idents={"Tgas": teff})))
+                        got = True if not g else bool(ceval.value(ceval.parse_expr(gq), ceval.Env(idents={"Tgas": teff, **lits})))
                     except Exception as e:
                         viol.append({"property": "C06", "what": f"{label}: guard-invalid: k[{i}] guard {g!r}: {e}", "signature": f"C06:{label}:guard-invalid"})
                         break
